@@ -79,7 +79,9 @@ fn satisfied_requirements(rng: &mut Rng, names: &[String], sent: &[String]) -> (
 /// provider's own InvalidClientTokenId).
 pub fn broad(o: &mut O, prop: u8, tier: &str, rng: &mut Rng) {
     let n = match tier {
-        "quick" => 48,
+        // (two full rounds of the sixteen option x carrier x body combinations where the purpose-built family is
+        // already the most expensive one, three elsewhere)
+        "quick" => if prop == 1 || prop == 11 { 32 } else { 48 },
         "thorough" => 800,
         _ => 320,
     };
